@@ -55,6 +55,25 @@ FLAVOURS[10] = FLAVOURS[9] + (" Assume a capable property-based / differential c
                                "workload (a spelling, value, option or sequence nobody would think of generating), not the one with the "
                                "biggest effect.")
 
+FLAVOURS[11] = ("This round, do NOT produce a single-token mutant. Write the kind of commit a well-meaning contributor sends as a pull "
+                "request: a small refactoring (a loop turned into a comprehension or a library call, two similar branches merged, a "
+                "helper extracted and reused at a second site, a regular expression or grammar rule 'simplified', duplicated code "
+                "unified), a performance improvement (a cache, memoisation, an early exit, a pre-computed table, reading a file in one "
+                "go), or a small feature / leniency (accepting one more spelling, one more option value, a friendlier error) of 5-40 "
+                "changed lines. Give it a plausible commit message in meta.json ('commit_message'). The break of the property must be "
+                "a SIDE EFFECT that a reviewer reading the diff would probably not notice - the diff should look like an improvement - "
+                "and, as before, it must need something specific to manifest and differ in mechanism from the earlier changes listed "
+                "above.")
+
+FLAVOURS[12] = ("This round, write a well-meaning BUG-FIX pull request (not a single-token mutant, 5-40 changed lines, with a "
+                "'commit_message' in meta.json): the contributor has noticed a real or imagined wart of the tool - an inconsistency "
+                "between two similar code paths, a case that raises an unfriendly error, a duplicated declaration, an odd-looking "
+                "special case, a TODO, something a linter or type checker complains about, a deprecated idiom - and 'fixes' it. The "
+                "fix does what its message says for the case the contributor had in mind, but it over-reaches or under-reaches: it "
+                "also changes behaviour for a neighbouring class of inputs, removes a special case that was there for a reason, or "
+                "makes two code paths consistent in the WRONG direction. The break of the property must come from that side effect, "
+                "must need something specific to manifest, and must differ in mechanism from the earlier changes listed above.")
+
 
 def main():
     rnd, outdir = int(sys.argv[1]), sys.argv[2]
